@@ -511,6 +511,27 @@ def unit_of(t, atom_unit, prev_units=None):
                       unit_of(t[2], atom_unit, prev_units)], t, "default of another unit")
     if k == "loopsum":
         return unit_of(t[1], atom_unit, prev_units)
+    if k == "when":
+        return unit_of(t[2], atom_unit, prev_units)
+    if k == "loopdep":
+        # ("loopdep", name, body-with-("prev", name), value before the loop):
+        # the unit must be a fixed point of one more iteration
+        name, body, pre = t[1], t[2], t[3]
+        pu = dict(prev_units or {})
+        u0 = unit_of(pre, atom_unit, prev_units)
+        pu[name] = None if u0 in ("lit", None) else u0
+        u1 = unit_of(body, atom_unit, pu)
+        pu[name] = None if u1 in ("lit", None) else u1
+        try:
+            u2 = unit_of(body, atom_unit, pu)
+        except UnitError as e:
+            raise UnitError(f"loop-carried variable `{name}` changes unit from one "
+                            f"iteration to the next ({e}): a conversion inside the loop is "
+                            f"re-applied to an already converted value", t)
+        if u2 != u1 and u1 not in ("lit", None) and u2 not in ("lit", None):
+            raise UnitError(f"loop-carried variable `{name}` has unit {ustr(u1)} after one "
+                            f"iteration and {ustr(u2)} after two", t)
+        return u1
     if k == "prev":
         if prev_units and t[1] in prev_units:
             return prev_units[t[1]]
